@@ -723,3 +723,134 @@ Proof. exact RK2_2d_example_coupled. Qed.
 Print Assumptions C01_RK2_2d_example_coupled.
 
 End T10.
+
+(** T11 — RK4 in TWO dimensions, COMPLETE: for coupled, time-dependent, non-linear fields u(t,x,y), v(t,x,y) whose
+    partial derivatives up to total order 4 exist (Frechet sense, families U i j l = d_t^i d_x^j d_y^l u) and are
+    bounded, the local truncation bound C h^5 is DERIVED (one polynomial identity for the order conditions of
+    systems, Taylor along segments for all orders, a structural Faa-di-Bruno ladder for the solution's derivatives)
+    and fed into the 2-D Lax-type theorem: order 4 with no truncation hypothesis, with separate metric factors, and
+    for the rational model's 2-D step; closed example with explicit solution.  With T7-T10 this closes the
+    convergence clause of C01 for all three schemes in one and two dimensions; what remains a hypothesis is the
+    existence of the exact solution (given, not constructed) and global bounds on the derivatives. *)
+From Ladim Require Import Proofs.RK4Truncation2DProofs.
+Section T11.
+Local Open Scope R_scope.
+Theorem C01_RK4_local_truncation_2d :
+  forall (U V : ffam) (B0 B1 B2 B3 B4 : R),
+  smooth4 U ->
+  smooth4 V ->
+  bounded4 (nBd B0 B1 B2 B3 B4) U ->
+  bounded4 (nBd B0 B1 B2 B3 B4) V ->
+  forall (sol : R -> pt) (h t0 T : R),
+  0 < h ->
+  (forall t : R,
+   t0 <= t <= t0 + T ->
+   is_derive (fun r : R_AbsRing => fst (sol r)) t (U 0%nat 0%nat 0%nat t (fst (sol t)) (snd (sol t)))) ->
+  (forall t : R,
+   t0 <= t <= t0 + T ->
+   is_derive (fun r : R_AbsRing => snd (sol r)) t (V 0%nat 0%nat 0%nat t (fst (sol t)) (snd (sol t)))) ->
+  forall s : R,
+  t0 <= s ->
+  s + h <= t0 + T ->
+  norm2
+    (psub (psub (sol (s + h)) (sol s))
+       (pscale2 h h (Phi_RK4_2d (field2 (U 0%nat 0%nat 0%nat) (V 0%nat 0%nat 0%nat)) h h h s (sol s)))) <=
+  C_RK4_2d B0 B1 B2 B3 B4 * h ^ 5.
+Proof. exact RK4_local_truncation_2d. Qed.
+Print Assumptions C01_RK4_local_truncation_2d.
+
+Theorem C01_RK4_converges_general_2d :
+  forall (U V : ffam) (B0 B1 B2 B3 B4 : R),
+  smooth4 U ->
+  smooth4 V ->
+  bounded4 (nBd B0 B1 B2 B3 B4) U ->
+  bounded4 (nBd B0 B1 B2 B3 B4) V ->
+  forall (sol : R -> pt) (h t0 T : R),
+  0 < h ->
+  (forall t : R,
+   t0 <= t <= t0 + T ->
+   is_derive (fun r : R_AbsRing => fst (sol r)) t (U 0%nat 0%nat 0%nat t (fst (sol t)) (snd (sol t)))) ->
+  (forall t : R,
+   t0 <= t <= t0 + T ->
+   is_derive (fun r : R_AbsRing => snd (sol r)) t (V 0%nat 0%nat 0%nat t (fst (sol t)) (snd (sol t)))) ->
+  forall n : nat,
+  INR n * h = T ->
+  norm2
+    (psub
+       (one_step_iter2 (Phi_RK4_2d (field2 (U 0%nat 0%nat 0%nat) (V 0%nat 0%nat 0%nat)) h h h) h h h t0 n
+          (sol t0)) (sol (t0 + T))) <=
+  exp (T * Lip_RK4 h (L_2d B1 B1 B1 B1)) * T * C_RK4_2d B0 B1 B2 B3 B4 * h ^ 4.
+Proof. exact RK4_converges_general_2d. Qed.
+Print Assumptions C01_RK4_converges_general_2d.
+
+Theorem C01_RK4_converges_general_2d_metric :
+  forall (U V : ffam) (B0 B1 B2 B3 B4 : R),
+  smooth4 U ->
+  smooth4 V ->
+  bounded4 (nBd B0 B1 B2 B3 B4) U ->
+  bounded4 (nBd B0 B1 B2 B3 B4) V ->
+  forall (sol : R -> pt) (hx hy ht t0 T : R),
+  0 < hx ->
+  0 < hy ->
+  0 < ht ->
+  (forall t : R,
+   t0 <= t <= t0 + T ->
+   is_derive (fun r : R_AbsRing => fst (sol r)) t
+     (hx / ht * U 0%nat 0%nat 0%nat t (fst (sol t)) (snd (sol t)))) ->
+  (forall t : R,
+   t0 <= t <= t0 + T ->
+   is_derive (fun r : R_AbsRing => snd (sol r)) t
+     (hy / ht * V 0%nat 0%nat 0%nat t (fst (sol t)) (snd (sol t)))) ->
+  forall n : nat,
+  INR n * ht = T ->
+  norm2
+    (psub
+       (one_step_iter2 (Phi_RK4_2d (field2 (U 0%nat 0%nat 0%nat) (V 0%nat 0%nat 0%nat)) hx hy ht) hx hy ht t0
+          n (sol t0)) (sol (t0 + T))) <=
+  exp (T * (Rmax hx hy / ht * Lip_RK4 (Rmax hx hy) (L_2d B1 B1 B1 B1))) * T *
+  C_RK4_2d_metric (hx / ht) (hy / ht) B0 B1 B2 B3 B4 * ht ^ 4.
+Proof. exact RK4_converges_general_2d_metric. Qed.
+Print Assumptions C01_RK4_converges_general_2d_metric.
+
+Theorem C01_model_RK4_converges_general_2d :
+  forall (U V : ffam) (B0 B1 B2 B3 B4 : R),
+  smooth4 U ->
+  smooth4 V ->
+  bounded4 (nBd B0 B1 B2 B3 B4) U ->
+  bounded4 (nBd B0 B1 B2 B3 B4) V ->
+  forall (vel : Q -> Q -> Q -> Q * Q) (dtdx dtdy x0 y0 : Q) (sol : R -> pt) (ht t0 T : R) (n : nat),
+  0 < Q2R dtdx ->
+  0 < Q2R dtdy ->
+  0 < ht ->
+  INR n * ht = T ->
+  (forall (k : nat) (s x y : Q),
+   Q2R (fst (vel s x y)) = U 0%nat 0%nat 0%nat (t0 + INR k * ht + Q2R s * ht) (Q2R x) (Q2R y)) ->
+  (forall (k : nat) (s x y : Q),
+   Q2R (snd (vel s x y)) = V 0%nat 0%nat 0%nat (t0 + INR k * ht + Q2R s * ht) (Q2R x) (Q2R y)) ->
+  (Q2R x0, Q2R y0) = sol t0 ->
+  (forall t : R,
+   t0 <= t <= t0 + T ->
+   is_derive (fun r : R_AbsRing => fst (sol r)) t
+     (Q2R dtdx / ht * U 0%nat 0%nat 0%nat t (fst (sol t)) (snd (sol t)))) ->
+  (forall t : R,
+   t0 <= t <= t0 + T ->
+   is_derive (fun r : R_AbsRing => snd (sol r)) t
+     (Q2R dtdy / ht * V 0%nat 0%nat 0%nat t (fst (sol t)) (snd (sol t)))) ->
+  norm2 (psub (Q2R2 (ConvergenceProofs.rk_iter vel dtdx dtdy tab_RK4 n x0 y0)) (sol (t0 + T))) <=
+  exp (T * (Rmax (Q2R dtdx) (Q2R dtdy) / ht * Lip_RK4 (Rmax (Q2R dtdx) (Q2R dtdy)) (L_2d B1 B1 B1 B1))) * T *
+  C_RK4_2d_metric (Q2R dtdx / ht) (Q2R dtdy / ht) B0 B1 B2 B3 B4 * ht ^ 4.
+Proof. exact model_RK4_converges_general_2d. Qed.
+Print Assumptions C01_model_RK4_converges_general_2d.
+
+Theorem C01_RK4_2d_example_coupled :
+  forall (n : nat) (h T : R),
+  0 < h ->
+  INR n * h = T ->
+  norm2
+    (psub (one_step_iter2 (Phi_RK4_2d (field2 ex_u ex_v) h h h) h h h 0 n (PI / 4, - (PI / 4)))
+       (sin T + atan (exp (2 * T)), sin T - atan (exp (2 * T)))) <=
+  exp (T * Lip_RK4 h 2) * T * (14599 / 192) * h ^ 4.
+Proof. exact RK4_2d_example_coupled. Qed.
+Print Assumptions C01_RK4_2d_example_coupled.
+
+End T11.
